@@ -1,8 +1,241 @@
 import BddVerif.Drive.Util
-/-! Driver for C06 — stub, to be written. -/
+import BddVerif.Model.Relation
+/-!
+Driver for C06: replays each observed case through the model of `Model/Relation.lean` and evaluates the
+property's own predicate on the implementation's output, by brute force on truth tables:
+  select    : result(v) = operand(v) ∧ v agrees with the literals (the LAST literal of a variable counts)
+  restrict  : result(v) = operand(v overridden with the literals)
+  var_pick  : result ⊆ operand; of the two valuations differing only in x the preferred (false) one is kept
+              when both are in the operand, the only one when one is
+  pick      : result ⊆ operand and every non-empty class of operand valuations agreeing outside `vars`
+              has exactly one member in the result (same for pick_random, for every coin list)
+  every result is a canonical array (`isCanon`) — also for valid but non-canonical operands (theorems
+  `restrict_canon`, `select_canon`, … hold for all operands well formed by level); the only exception is
+  `pick(&[])`, which is `clone()`.
+The predicates do not use the model.
+-/
 namespace B.Drive.C06
 open B B.Drive
 
-def handle (key : String) (_ins _obs : List String) : Verdict := Verdict.bad ("key " ++ key)
+def maxTT : Nat := 10
+
+/-- value of variable `k` in valuation number `i` over `n` variables (variable 0 most significant) -/
+def bitOf (n i k : Nat) : Bool := (i >>> (n - 1 - k)) % 2 == 1
+def setBit (n i k : Nat) (b : Bool) : Nat :=
+  let w := 2 ^ (n - 1 - k)
+  if bitOf n i k == b then i else if b then i + w else i - w
+
+def parseLits? (s : String) : Option (List (Nat × Bool)) :=
+  if s == "~" then some [] else
+  (s.splitOn ",").mapM fun p =>
+    match p.splitOn ":" with
+    | [x, b] => (x.toNat?).map fun x => (x, b == "1")
+    | _ => none
+
+def parseVars? (s : String) : Option (List Nat) :=
+  if s == "~" then some [] else (s.splitOn ",").mapM (·.toNat?)
+
+/-- the literal that counts for variable `x`: the last one in the list (independent of `fromValues`) -/
+def lastLit (lits : List (Nat × Bool)) (x : Nat) : Option Bool :=
+  (lits.reverse.find? (·.1 == x)).map (·.2)
+
+def agreesWith (n : Nat) (lits : List (Nat × Bool)) (i : Nat) : Bool :=
+  (List.range n).all fun k => match lastLit lits k with | some b => bitOf n i k == b | none => true
+
+def overrideIx (n : Nat) (lits : List (Nat × Bool)) (i : Nat) : Nat :=
+  (List.range n).foldl (fun j k => match lastLit lits k with | some b => setBit n j k b | none => j) i
+
+def firstFail (xs : List (Option String)) : Option String := xs.findSome? id
+
+def canonClause (res : Arr) : Option String := if isCanon res then none else some "not-canonical"
+
+def checkSelect (n : Nat) (res A : Arr) (lits : List (Nat × Bool)) : Option String :=
+  if n > maxTT then none else
+  let tr := ttOf res n; let ta := ttOf A n
+  if (List.range (2 ^ n)).all fun i => tr[i]! == (ta[i]! && agreesWith n lits i) then none else some "select-filter"
+
+def checkRestrict (n : Nat) (res A : Arr) (lits : List (Nat × Bool)) : Option String :=
+  if n > maxTT then none else
+  let tr := ttOf res n; let ta := ttOf A n
+  if (List.range (2 ^ n)).all fun i => tr[i]! == ta[overrideIx n lits i]! then none else some "restrict-override"
+
+/-- class representative: the listed variables cleared -/
+def classKey (n : Nat) (vars : List Nat) (i : Nat) : Nat := vars.foldl (fun j k => if k < n then setBit n j k false else j) i
+
+def checkPick (n : Nat) (res A : Arr) (vars : List Nat) : Option String :=
+  if n > maxTT then none else
+  let tr := ttOf res n; let ta := ttOf A n
+  let idx := List.range (2 ^ n)
+  if !(idx.all fun i => !tr[i]! || ta[i]!) then some "pick-subset" else
+  let cntA := idx.foldl (fun (c : Array Nat) i => if ta[i]! then c.modify (classKey n vars i) (· + 1) else c) (Array.replicate (2 ^ n) 0)
+  let cntR := idx.foldl (fun (c : Array Nat) i => if tr[i]! then c.modify (classKey n vars i) (· + 1) else c) (Array.replicate (2 ^ n) 0)
+  if idx.all fun k => if cntA[k]! > 0 then cntR[k]! == 1 else cntR[k]! == 0 then none else some "pick-exactly-one"
+
+/-- `var_pick` with preferred value `pref` -/
+def checkVarPick (n : Nat) (res A : Arr) (x : Nat) (pref : Bool) : Option String :=
+  if n > maxTT then none else
+  let tr := ttOf res n; let ta := ttOf A n
+  let ok := (List.range (2 ^ n)).all fun i =>
+    let j := setBit n i x (!bitOf n i x)
+    tr[i]! == (ta[i]! && (bitOf n i x == pref || !ta[j]!))
+  if ok then none else some "var-pick-preferred"
+
+def checkQuant (n : Nat) (res A : Arr) (x : Nat) (isEx : Bool) : Option String :=
+  if n > maxTT then none else
+  let tr := ttOf res n; let ta := ttOf A n
+  let ok := (List.range (2 ^ n)).all fun i =>
+    let a := ta[setBit n i x false]!; let b := ta[setBit n i x true]!
+    tr[i]! == (if isEx then a || b else a && b)
+  if ok then none else some "projection"
+
+def showO : Outcome Arr → String
+  | .ok a => showArr a
+  | .err _ => "err"
+  | .panic _ => "panic"
+
+def nontrivial (res : Option Arr) (A : Arr) : Bool := res.any fun r => r.size > 2 && r != A
+
+def hasDup (vars : List Nat) : Bool := vars.eraseDups.length != vars.length
+
+/-- assembling a verdict: `claim` = the operand and the variables are within the property (valid operand,
+    variables below `num_vars`); outside of it only the outcome kind and the model agreement are reported -/
+def verdict (model res : String) (A : Arr) (inScope : Bool) (pred : Arr → Option String) (tags : List String) : Verdict :=
+  let obs := parseArr? res
+  let fail := if !inScope then none else
+    match obs with
+    | some R => pred R
+    | none => some ("outcome:" ++ res)
+  { agree := model == res, model, fail, nontrivial := nontrivial obs A, tags }
+
+def szTag (A : Arr) : String := s!"n{numVars A}"
+
+def handle (key : String) (ins obs : List String) : Verdict :=
+  match key, ins, obs with
+  | "C06.coin", [flips], [got, pos] =>
+    let fl := parseBits flips
+    let model := showBits fl
+    { agree := model == got && pos == toString fl.length, model,
+      fail := if got == model then none else some "coin-convention", nontrivial := false, tags := ["coin"] }
+  | "C06.vsel", [a, x, b], [res] =>
+    match parseArr? a, x.toNat? with
+    | some A, some x =>
+      let n := numVars A; let b := b == "1"
+      let canonIn := isCanon A
+      verdict (showArr (varSelect A x b)) res A (x < n)
+        (fun R => firstFail [checkSelect n R A [(x, b)], canonClause R])
+        ["vsel", szTag A, if canonIn then "canon" else "noncanon"]
+    | _, _ => Verdict.bad "args"
+  | "C06.select", [a, lits], [res] =>
+    match parseArr? a, parseLits? lits with
+    | some A, some ls =>
+      let n := numVars A
+      let canonIn := isCanon A
+      verdict (showArr (select A ls)) res A (ls.all (·.1 < n))
+        (fun R => firstFail [checkSelect n R A ls, canonClause R])
+        ["select", szTag A, s!"lits{ls.length}", if hasDup (ls.map (·.1)) then "rep" else "norep",
+          if canonIn then "canon" else "noncanon"]
+    | _, _ => Verdict.bad "args"
+  | "C06.vres", [a, x, b], [res] =>
+    match parseArr? a, x.toNat? with
+    | some A, some x =>
+      let n := numVars A; let b := b == "1"
+      let canonIn := isCanon A
+      verdict (showArr (varRestrict A x b)) res A true
+        (fun R => firstFail [checkRestrict n R A [(x, b)], canonClause R])
+        ["vres", szTag A, if canonIn then "canon" else "noncanon", if x < n then "inrange" else "oor"]
+    | _, _ => Verdict.bad "args"
+  | "C06.restrict", [a, lits], [res] =>
+    match parseArr? a, parseLits? lits with
+    | some A, some ls =>
+      let n := numVars A
+      let canonIn := isCanon A
+      verdict (showArr (restrict A ls)) res A true
+        (fun R => firstFail [checkRestrict n R A ls, canonClause R])
+        ["restrict", szTag A, s!"lits{ls.length}", if hasDup (ls.map (·.1)) then "rep" else "norep",
+          if canonIn then "canon" else "noncanon", if ls.all (·.1 < n) then "inrange" else "oor"]
+    | _, _ => Verdict.bad "args"
+  | "C06.vpick", [a, x], [res] =>
+    match parseArr? a, x.toNat? with
+    | some A, some x =>
+      let n := numVars A
+      if x < n then
+        verdict (showO (varPickO A x)) res A true
+          (fun R => firstFail [checkVarPick n R A x false, checkPick n R A [x], canonClause R]) ["vpick", szTag A]
+      else
+        -- out of range: the only claim is the outcome (a refusal by panic, never a value)
+        let model := showO (varPickO A x)
+        { agree := model == res, model, fail := if res == "panic" then none else some "oor-not-refused",
+          nontrivial := false, tags := ["vpick", "oor"] }
+    | _, _ => Verdict.bad "args"
+  | "C06.vpickr", [a, x, flips], [res, pos] =>
+    match parseArr? a, x.toNat? with
+    | some A, some x =>
+      let n := numVars A
+      let coin := (drawCoin (parseBits flips)).1
+      if x < n then
+        let v := verdict (showO (varPickRandomO A x coin)) res A true
+          (fun R => firstFail [checkVarPick n R A x coin, checkPick n R A [x], canonClause R,
+            if pos == "1" then none else some "draws"]) ["vpickr", szTag A]
+        { v with agree := v.agree && pos == "1" }
+      else
+        let model := showO (varPickRandomO A x coin)
+        { agree := model == res, model, fail := if res == "panic" then none else some "oor-not-refused",
+          nontrivial := false, tags := ["vpickr", "oor"] }
+    | _, _ => Verdict.bad "args"
+  | "C06.pick", [a, vars], [res] =>
+    match parseArr? a, parseVars? vars with
+    | some A, some vs =>
+      let n := numVars A
+      if vs.all (· < n) then
+        -- `pick(&[])` is `clone()`: canonical only if the operand is
+        verdict (showO (pickO A vs)) res A true
+          (fun R => firstFail [checkPick n R A vs, if vs.isEmpty && !isCanon A then none else canonClause R])
+          ["pick", szTag A, s!"vars{vs.length}", if hasDup vs then "dup" else "nodup"]
+      else
+        let model := showO (pickO A vs)
+        { agree := model == res, model, fail := if res == "panic" then none else some "oor-not-refused",
+          nontrivial := false, tags := ["pick", "oor"] }
+    | _, _ => Verdict.bad "args"
+  | "C06.pickr", [a, vars, flips], [res, pos] =>
+    match parseArr? a, parseVars? vars with
+    | some A, some vs =>
+      let n := numVars A
+      let fl := parseBits flips
+      if vs.all (· < n) then
+        let draws := toString (pickRandomDraws vs)
+        let v := verdict (showO (pickRandomO A vs fl)) res A true
+          (fun R => firstFail [checkPick n R A vs, if vs.isEmpty && !isCanon A then none else canonClause R])
+          ["pickr", szTag A, s!"vars{vs.length}", if hasDup vs then "dup" else "nodup"]
+        { v with agree := v.agree && pos == draws }
+      else
+        let model := showO (pickRandomO A vs fl)
+        { agree := model == res, model, fail := if res == "panic" then none else some "oor-not-refused",
+          nontrivial := false, tags := ["pickr", "oor"] }
+    | _, _ => Verdict.bad "args"
+  | "C06.vex", [a, x], [res] =>
+    match parseArr? a, x.toNat? with
+    | some A, some x =>
+      let n := numVars A
+      if x < n then
+        verdict (showO (Rel.varExistsO A x)) res A true
+          (fun R => firstFail [checkQuant n R A x true, canonClause R]) ["vex", szTag A]
+      else
+        let model := showO (Rel.varExistsO A x)
+        { agree := model == res, model, fail := if res == "panic" then none else some "oor-not-refused",
+          nontrivial := false, tags := ["vex", "oor"] }
+    | _, _ => Verdict.bad "args"
+  | "C06.vall", [a, x], [res] =>
+    match parseArr? a, x.toNat? with
+    | some A, some x =>
+      let n := numVars A
+      if x < n then
+        verdict (showO (Rel.varForAllO A x)) res A true
+          (fun R => firstFail [checkQuant n R A x false, canonClause R]) ["vall", szTag A]
+      else
+        let model := showO (Rel.varForAllO A x)
+        { agree := model == res, model, fail := if res == "panic" then none else some "oor-not-refused",
+          nontrivial := false, tags := ["vall", "oor"] }
+    | _, _ => Verdict.bad "args"
+  | _, _, _ => Verdict.bad ("key " ++ key)
 
 end B.Drive.C06
